@@ -54,17 +54,21 @@ def case_strategy():
         mischief=st.lists(st.tuples(weighted([("lgood", 2), ("lcrd", 2), ("lrty", 1), ("down", 2)]),
                                     st.integers(1, 14), bits(4)).map(list), max_size=2),
         down_len=st.lists(st.integers(10, 40), min_size=1, max_size=3),
-        # per corrupted header [kind, off, lbad_delay]: "no" = the LBAD follows the pending LGOODs (legal order);
-        # "free"/"aim" = it overtakes them (they follow at their own pace / the first one's command word is aimed at
-        # <last word of the header the DUT has in flight> + off)
-        overtake=st.one_of(st.just([]), st.lists(st.one_of(
-            st.just(["no", 0, 0]),
-            st.tuples(st.just("free"), st.just(0), st.integers(0, 12)).map(list),
-            st.tuples(st.just("aim"), st.integers(-3, 3), st.integers(0, 12)).map(list),
-            st.tuples(st.just("aim"), st.integers(-3, 3), st.integers(0, 12)).map(list)), min_size=1, max_size=3)),
-        # slow acknowledger (several LGOODs pending when a header arrives corrupted) in a third of the cases
-        slow_ack=st.one_of(st.just([]), st.just([]), st.lists(weighted([(5, 1), (8, 2), (12, 2), (18, 1)]),
-                                                              min_size=1, max_size=4)),
+        # ordering mismatch (half of the cases; {} = the partner keeps the legal order): per corrupted header
+        # lbads[i] = [kind, off, lbad_delay]: "no" = the LBAD follows the pending LGOODs; "free"/"aim" = it overtakes
+        # them (they follow at their own pace / the first one's command word is aimed at <last word of the header the
+        # DUT has in flight> + off); ack_delay = a slow acknowledger (several LGOODs pending when a header arrives
+        # corrupted); corrupt = which headers the partner sees corrupted (replaces `noise`)
+        overtake=st.one_of(st.just({}), st.fixed_dictionaries(dict(
+            lbads=st.lists(st.one_of(
+                st.just(["no", 0, 0]),
+                st.tuples(st.just("free"), st.just(0), st.integers(0, 12)).map(list),
+                st.tuples(st.just("aim"), st.integers(-3, 3), weighted([(0, 3), (1, 2), (2, 2), (4, 1), (6, 2), (8, 2),
+                                                                        (12, 1)])).map(list),
+                st.tuples(st.just("aim"), st.integers(-3, 3), weighted([(0, 3), (1, 2), (2, 2), (4, 1), (6, 2), (8, 2),
+                                                                        (12, 1)])).map(list)), min_size=1, max_size=3),
+            ack_delay=st.lists(weighted([(0, 1), (5, 1), (8, 2), (12, 2), (18, 2), (25, 1)]), min_size=1, max_size=4),
+            corrupt=st.lists(weighted([(0, 2), (1, 1)]), min_size=2, max_size=14)))),
     ))
 
 
